@@ -114,6 +114,7 @@ package raft
 // ===========================================================================================
 
 //@ inv [I0] 0 <= Lfirst && Lfirst <= Llast
+//@ inv [Istate] r.state <= Shutdown
 //@ inv [I1] r.lastApplied <= r.commitIndex
 //@ inv [I2] r.commitIndex <= Llast
 //@ inv [I3] Lfirst <= r.lastIncludedIndex
@@ -342,7 +343,7 @@ package raft
 //@   requires r.configuration != nil && r.followers != nil && r.stateStorage != nil && r.operationManager != nil && r.log != nil && r.logger != nil
 //@   requires r.operationManager.leaderLease != nil
 //@   requires forall id string :: id in r.followers ==> r.followers[id] != nil
-//@   requires persTerm == r.currentTerm && persVote == r.votedFor && 0 <= Lfirst && Lfirst <= Llast && r.lastContact <= now
+//@   requires persTerm == r.currentTerm && persVote == r.votedFor && 0 <= Lfirst && Lfirst <= Llast && r.lastContact <= now && r.state <= Shutdown
 //@   ensures [voter-only] !old(r.configuration.IsVoter[r.id]) ==> r.state == old(r.state) && r.currentTerm == old(r.currentTerm) && r.votedFor == old(r.votedFor)
 //@   ensures [quiet] now - old(r.lastContact) < r.options.electionTimeout ==> r.state == old(r.state) && r.currentTerm == old(r.currentTerm) && r.votedFor == old(r.votedFor)
 //@   ensures [leader-keeps] old(r.state) == Leader || old(r.state) == Shutdown ==> r.state == old(r.state) && r.currentTerm == old(r.currentTerm)
